@@ -223,6 +223,91 @@ func runWithFailingNeighbour(modality string, tr []bool) periodCase {
 	return periodCase{Name: modality, Trace: obs, Codes: reportsOf(&res, "al"), Panic: problem(&res, true)}
 }
 
+// runClearMoodPeriods: `al audits only while mood == 'clear'` with a predicate
+// over moodt.  Moods: clear [0,3) red [3,5) clear [5,9) blue [9,end).  Every
+// mood change is two rounds: one that closes the old mood (old mood, moodt =
+// its duration) and one that opens the new one (moodt = 0); both are
+// observations of a period that is open, and the second one is also the round
+// that closes al's period.  Two periods: moodt = 0, 3, 0 and moodt = 0, 4, 0.
+func runClearMoodPeriods(modality string, k float64, negated bool) []periodCase {
+	pred := fmt.Sprintf("moodt < %g", k)
+	if negated {
+		pred = fmt.Sprintf("moodt >= %g", k)
+	}
+	cfg := roleText + "audience\n  al audits only while mood == 'clear'\n  al expects " + modality + ": " + pred + "\nend\n"
+	evs := []cmd.VerifEvent{
+		{Kind: "mood", Ts: 3, Mood: "red"},
+		{Kind: "mood", Ts: 5, Mood: "clear"},
+		{Kind: "mood", Ts: 9, Mood: "blue"},
+		{Kind: "final", Ts: 10.2871},
+	}
+	res := cmd.VerifAuditLoop(cfg, evs, false)
+	holds := func(moodt float64) bool { return (moodt < k) != negated }
+	traces := [][]bool{{holds(0), holds(3), holds(0)}, {holds(0), holds(4), holds(0)}}
+	spans := [][2]int{{-1000, 0}, {1, 2}}
+	var out []periodCase
+	for i, tr := range traces {
+		pc := periodCase{Name: modality, Trace: tr, Panic: problem(&res, false)}
+		for _, o := range res.Outs {
+			if o.Kind == "report" && o.Auditor == "al" && o.Round >= spans[i][0] && o.Round <= spans[i][1] {
+				pc.Codes = append(pc.Codes, o.Result)
+			}
+		}
+		out = append(out, pc)
+	}
+	return out
+}
+
+const roleText2 = "role r\n  :noop true\n  spotlight true\n  signal s scalar at (?P<ts_now>)s=(?P<scalar>\\d+)\n  signal a scalar at (?P<ts_now>)a=(?P<scalar>\\d+)\nend\ncast\n  x plays r\nend\n"
+
+// runSignalActivated: `al audits only while [x a] > 3`, predicate over [x s].
+// A line of the spotlight carries both signals: the round of such a line is an
+// observation.  Rounds that do not sample the activation signal (a line with
+// s only, a mood change) leave al alone: the period stays open and nothing is
+// observed.  The last element of tr is observed in the round where a drops
+// (a = 1), which closes the period.
+func runSignalActivated(modality string, tr []bool) periodCase {
+	cfg := roleText2 + "audience\n  al audits only while [x a] > 3\n  al expects " + modality + ": [x s] > 3\nend\n"
+	val := func(b bool) float64 {
+		if b {
+			return 5
+		}
+		return 1
+	}
+	var evs []cmd.VerifEvent
+	ts := 0.0
+	for i, b := range tr {
+		ts += 0.5
+		a := 5.0
+		if i == len(tr)-1 {
+			a = 1
+		}
+		evs = append(evs, cmd.VerifEvent{Kind: "sig", Ts: ts, Values: []cmd.VerifValue{
+			{Actor: "x", Sig: "a", IsNum: true, Num: a}, {Actor: "x", Sig: "s", IsNum: true, Num: val(b)}}})
+		if i < len(tr)-1 {
+			// a line with s only, carrying the opposite value, and now and then a mood change
+			ts += 0.25
+			evs = append(evs, cmd.VerifEvent{Kind: "sig", Ts: ts, Values: []cmd.VerifValue{{Actor: "x", Sig: "s", IsNum: true, Num: val(!b)}}})
+			if i%2 == 0 {
+				ts += 0.25
+				evs = append(evs, cmd.VerifEvent{Kind: "mood", Ts: ts, Mood: []string{"red", "clear"}[(i/2)%2]})
+			}
+		}
+	}
+	evs = append(evs, cmd.VerifEvent{Kind: "final", Ts: ts + 1.2871})
+	res := cmd.VerifAuditLoop(cfg, evs, false)
+	obs := tr
+	if len(tr) == 1 {
+		// a = 1 from the start: al never audits
+		obs = nil
+	}
+	pc := periodCase{Name: modality, Trace: obs, Codes: reportsOf(&res, "al"), Panic: problem(&res, false)}
+	if len(tr) == 1 && len(pc.Codes) == 0 && pc.Panic == "" {
+		pc.Panic = "skip"
+	}
+	return pc
+}
+
 func main() {
 	seed := flag.Int64("seed", 1, "")
 	tier := flag.String("tier", "quick", "")
@@ -352,6 +437,24 @@ func main() {
 				audPeriods = append(audPeriods, runThroughout(n, tr))
 				if l >= 1 {
 					audPeriods = append(audPeriods, runWithFailingNeighbour(n, tr))
+				}
+			}
+		}
+		// predicates over moodt, periods delimited by the clear mood
+		for _, k := range []float64{-1, 1, 3.5, 10} {
+			for _, neg := range []bool{false, true} {
+				audPeriods = append(audPeriods, runClearMoodPeriods(n, k, neg)...)
+			}
+		}
+		// activation by a signal, with rounds that do not sample it
+		for l := 2; l <= 4; l++ {
+			for bits := 0; bits < 1<<uint(l); bits++ {
+				tr := make([]bool, l)
+				for i := range tr {
+					tr[i] = bits&(1<<uint(i)) != 0
+				}
+				if pc := runSignalActivated(n, tr); pc.Panic != "skip" {
+					audPeriods = append(audPeriods, pc)
 				}
 			}
 		}
